@@ -99,7 +99,7 @@ def gen_world(rng, P, name):
         w.members.append(W.Member(fam=0, scn=cs))
         w.clones.append((src, dst, rng.choice(["deepcopy", "pickle"]), k))
     # nested sends that fall into the suffixes (what distinguishes rtc on/off after the clone)
-    actions = [c for c in scn.cbs if c.group not in ("cond", "unless", "validators")]
+    actions = [c for c in scn.cbs if c.group not in ("cond", "unless", "validators") and c.style not in ("attr", "evref")]
     if actions and rng.random() < 0.6:
         busy = {(a[0], a[1]) for a in base.acts if a[1] == a[2]}
         for _ in range(rng.randint(1, 3)):
